@@ -554,6 +554,63 @@ Section WithHash.
       + intros p Epp HIn. exact (Hp' p Epp f HIn Hf).
   Qed.
 
+  Lemma mk_dict_params_irrelevant c e params :
+    params_optional c params ->
+    key_thumbprint hashnew c (mk_dict c e params) = key_thumbprint hashnew c (mk_dict c e None).
+  Proof.
+    intro Hp. apply thumbprint_ext. intros f Hf.
+    destruct (list_eq_dec N.eq_dec f s_kty) as [Ek|Ek].
+    - subst f. rewrite !mk_dict_kty. reflexivity.
+    - rewrite !dget_mk_dict; try exact Ek; try reflexivity.
+      + intros p E. discriminate.
+      + intros p E HIn. exact (Hp p E f HIn Hf).
+  Qed.
+
+  Lemma native_not_oct_asym nk : (forall a, nk <> NOct a) -> In (native_cls nk) asym_classes.
+  Proof.
+    destruct nk; intro H; simpl; try tauto. exfalso. exact (H k eq_refl).
+  Qed.
+
+  (* two native keys with the same public key (the generated private key, the
+     key loaded from its private or public PEM/DER, ...) and arbitrary
+     optional parameters have the same thumbprint *)
+  Theorem repr_independent nk nk' params params' k k' :
+    native_public nk = native_public nk' ->
+    params_optional (native_cls nk) params -> params_optional (native_cls nk') params' ->
+    key_of_native nk params = Ok k -> key_of_native nk' params' = Ok k' ->
+    ko_cls k = ko_cls k' /\
+    key_thumbprint hashnew (ko_cls k) (ko_dict k) = key_thumbprint hashnew (ko_cls k') (ko_dict k').
+  Proof.
+    intros Ep Hp Hp' H H'.
+    assert (Ec : native_cls nk = native_cls nk').
+    { rewrite <- (native_public_cls nk), <- (native_public_cls nk'), Ep. reflexivity. }
+    destruct nk as [a | | | ].
+    - (* oct: the same octets *)
+      destruct nk' as [a' | | | ]; try discriminate. simpl in Ep. inversion Ep; subst a'.
+      unfold key_of_native in *. simpl in H, H'. inversion H; inversion H'; subst. cbn [ko_cls ko_dict].
+      split; [reflexivity|].
+      rewrite (mk_dict_params_irrelevant OctCls _ params Hp).
+      rewrite (mk_dict_params_irrelevant OctCls _ params' Hp'). reflexivity.
+    - assert (HA : In (native_cls (NRSA n e priv)) asym_classes) by (apply native_not_oct_asym; intros a E; discriminate).
+      assert (HA' : In (native_cls nk') asym_classes) by (rewrite <- Ec; exact HA).
+      destruct (native_priv_pub _ params None k HA Hp (fun p E => match E with end) H) as [k1 [E1 [C1 T1]]].
+      destruct (native_priv_pub _ params' None k' HA' Hp' (fun p E => match E with end) H') as [k2 [E2 [C2 T2]]].
+      rewrite Ep in E1. rewrite E1 in E2. inversion E2; subst k2.
+      split; [congruence|]. rewrite <- T1, <- T2. reflexivity.
+    - assert (HA : In (native_cls (NEC crv bits x y d)) asym_classes) by (apply native_not_oct_asym; intros a E; discriminate).
+      assert (HA' : In (native_cls nk') asym_classes) by (rewrite <- Ec; exact HA).
+      destruct (native_priv_pub _ params None k HA Hp (fun p E => match E with end) H) as [k1 [E1 [C1 T1]]].
+      destruct (native_priv_pub _ params' None k' HA' Hp' (fun p E => match E with end) H') as [k2 [E2 [C2 T2]]].
+      rewrite Ep in E1. rewrite E1 in E2. inversion E2; subst k2.
+      split; [congruence|]. rewrite <- T1, <- T2. reflexivity.
+    - assert (HA : In (native_cls (NOKP crv x d)) asym_classes) by (apply native_not_oct_asym; intros a E; discriminate).
+      assert (HA' : In (native_cls nk') asym_classes) by (rewrite <- Ec; exact HA).
+      destruct (native_priv_pub _ params None k HA Hp (fun p E => match E with end) H) as [k1 [E1 [C1 T1]]].
+      destruct (native_priv_pub _ params' None k' HA' Hp' (fun p E => match E with end) H') as [k2 [E2 [C2 T2]]].
+      rewrite Ep in E1. rewrite E1 in E2. inversion E2; subst k2.
+      split; [congruence|]. rewrite <- T1, <- T2. reflexivity.
+  Qed.
+
   (* EC members carry the full coordinate length *)
   Theorem fixed_b64_full z bits s :
     fixed_b64 z bits = Ok s ->
